@@ -107,7 +107,7 @@ REG.contract(
     requires=[C("shapes", lambda s: And(net_shapes(s, s.self), Not(s.self.constraint_matrix.isnone), s.input_schedule.rows == s.self._phase_angles.len)),
               C("time_indices_in_range", lambda s: Implies(Not(s.time_indices.isnone),
                   AllIdx(0, s.time_indices.val.len, lambda k: And(s.time_indices.val[k] >= 0, s.time_indices.val[k] < s.input_schedule.cols), name="tk")))],
-    extra=dict(returns=cc_value, returns_props=("C06", "C12", "C18"), canonical_filters=True),
+    extra=dict(returns=cc_value, returns_props=("C06", "C12", "C18", "C10"), canonical_filters=True),
 )
 
 
